@@ -37,13 +37,13 @@ func ruleC07(r *Report) {
 }
 
 type builder struct {
-	fn   *ssa.Function
-	T    *types.Named
-	st   *types.Struct
-	root *ssa.Call
-	name string
-	rg   *Region // the builder with the unexported helpers it shares with other builders
-	rootC *rctx  // activation in which the root element is created
+	fn    *ssa.Function
+	T     *types.Named
+	st    *types.Struct
+	root  *ssa.Call
+	name  string
+	rg    *Region // the builder with the unexported helpers it shares with other builders
+	rootC *rctx   // activation in which the root element is created
 }
 
 // constIn: the constant string v stands for in activation c (a literal, or a helper parameter bound to one).
